@@ -339,7 +339,7 @@ func checkExprRanges(src []byte, e hclsyntax.Expression, bad func(string, string
 						bad("traversal-root", fmt.Sprintf("root step range slices %q for %q", s, st.Name))
 					}
 				case hcl.TraverseAttr:
-					if sigText(s) != "."+st.Name {
+					if strings.TrimSpace(s) != s || sigText(s) != "."+st.Name {
 						bad("traversal-attr", fmt.Sprintf("attribute step range slices %q for .%s", s, st.Name))
 					}
 				case hcl.TraverseIndex:
